@@ -244,6 +244,18 @@ zstd_filter_read(struct archive_read_filter *self, const void **p)
 				return (ARCHIVE_FATAL);
 			}
 		}
+		if (!state->in_frame && *(const unsigned char *)in.src == 0) {
+			/* Zero bytes between or behind frames are the padding
+			 * of the last output block, never a frame (every
+			 * frame starts with a non-zero magic number). */
+			const unsigned char *z = in.src;
+			ssize_t k = 0;
+
+			while (k < avail_in && z[k] == 0)
+				k++;
+			__archive_read_filter_consume(self->upstream, k);
+			continue;
+		}
 		in.size = avail_in;
 		in.pos = 0;
 
